@@ -99,7 +99,7 @@ impl Property for C11 {
         ]
     }
     fn required_labels(&self, _t: Tier) -> Vec<&'static str> {
-        vec!["multi-owner", "signed", "mtime-after-source-date", "mtime-before-source-date"]
+        vec!["multi-owner", "signed", "source-date-zoned", "mtime-after-source-date", "mtime-before-source-date"]
     }
     fn phases(&self, tier: Tier) -> Vec<Phase<C11Case>> {
         vec![Phase::Random {
@@ -109,6 +109,13 @@ impl Property for C11 {
                 (config_any(CfgParams { max_files: 8, sizes: size_small(), comp: comp_fast(), sign_prob: 0.3, file_kinds: true, force_large_prob: 0.05, rich_meta: true }), 1_000_000_000u32..1_700_000_000, any::<u64>())
                     .prop_map(|(mut cfg, sd, salt)| {
                         cfg.source_date = Some(sd);
+                        // a third of the cases pass the same instant as a zoned chrono DateTime
+                        cfg.source_date_zone = match salt % 9 {
+                            0 => Some(7200),
+                            1 => Some(-34200),
+                            2 => Some(20700),
+                            _ => None,
+                        };
                         if cfg.signer == Some(1) {
                             cfg.signer = Some(0);
                         }
@@ -149,11 +156,23 @@ impl Property for C11 {
         if cfg.signer.is_some() {
             o.label("signed");
         }
+        if cfg.source_date_zone.is_some() {
+            o.label("source-date-zoned");
+        }
         if owners.len() >= 2 || cfg.signer.is_some() {
             o.nontrivial_key(fnv1a(serde_json::to_string(cfg).unwrap_or_default().as_bytes()));
         }
         let r = (|| -> Result<(), (String, String)> {
             let first = build_and_write(cfg)?.bytes;
+            // the zone in which the source date is expressed must not matter
+            if cfg.source_date_zone.is_some() {
+                let mut plain = cfg.clone();
+                plain.source_date_zone = None;
+                let other = build_and_write(&plain)?.bytes;
+                if other != first {
+                    return Err(("not-reproducible".into(), format!("the same source date given as a zoned DateTime and as plain seconds gives different packages: {}", super::common::first_diff(&other, &first))));
+                }
+            }
             for i in 1..3 {
                 let again = build_and_write(cfg)?.bytes;
                 if again != first {
